@@ -212,39 +212,42 @@ pub fn crossdef_strategy() -> BoxedStrategy<FaultCase> {
 /// the reader is D (step k = FieldAdded(n, ..), field n present). For the reader the removal does not concern its
 /// field (it is not later than the step that introduced it) and the chunk it expects is not there.
 pub fn swapped_step_strategy() -> BoxedStrategy<FaultCase> {
-    use vmodel::{Record, Step};
+    use vmodel::{Field, Record, Step, Val};
     let cfg = ValCfg { max_len: 4, long: false, ..ValCfg::default() };
+    // (built, not filtered: a history without a usable step falls back to a fixed declaration)
+    let fallback = || Record { fields: vec![Field::new("a", Ty::U8), Field { name: "x".into(), ty: Ty::Option(Arc::new(Ty::U8)), transient: None, opt_spelling: 0 }], steps: vec![Step::Added { name: "x".into(), default: Val::None }] };
     (vmodel::declgen::history_spec_strategy(4, 6), any::<u16>(), any::<u16>())
-        .prop_filter_map("a version with an added field", |(spec, vs, ks)| {
+        .prop_map(move |(spec, vs, ks)| {
             let versions = vmodel::declgen::build_history(&spec, &vmodel::declgen::dynamic_menu(false));
-            let with_added: Vec<&Record> = versions.iter().filter(|r| r.steps.iter().any(|s| matches!(s, Step::Added { name, .. } if r.fields.iter().any(|f| &f.name == name && f.transient.is_none())))).collect();
-            if with_added.is_empty() {
-                return None;
-            }
-            let d = with_added[vmodel::gen::pick(vs, with_added.len())].clone();
-            let cands: Vec<usize> = d.steps.iter().enumerate().filter(|(_, s)| matches!(s, Step::Added { name, .. } if d.fields.iter().any(|f| &f.name == name && f.transient.is_none()))).map(|(i, _)| i).collect();
-            let k = cands[vmodel::gen::pick(ks, cands.len())];
+            let usable = |r: &Record, i: usize| match &r.steps[i] {
+                Step::Added { name, .. } => r.fields.iter().any(|f| &f.name == name && f.transient.is_none()) && !r.steps[i + 1..].iter().any(|s| matches!(s, Step::MadeOptional { name: n } | Step::Removed { name: n } | Step::MadeTransient { name: n } if n == name)),
+                _ => false,
+            };
+            let cands: Vec<(usize, usize)> = versions.iter().enumerate().flat_map(|(vi, r)| (0..r.steps.len()).filter(|i| usable(r, *i)).map(|i| (vi, i)).collect::<Vec<_>>()).collect();
+            let (d, k) = if cands.is_empty() {
+                (fallback(), 0)
+            } else {
+                let (vi, k) = cands[(vs as usize * 31 + ks as usize) % cands.len()];
+                (versions[vi].clone(), k)
+            };
             let name = match &d.steps[k] {
                 Step::Added { name, .. } => name.clone(),
                 _ => unreachable!(),
             };
-            // later steps that refer to the field would not make sense for the twin
-            if d.steps[k + 1..].iter().any(|s| matches!(s, Step::MadeOptional { name: n } | Step::Removed { name: n } | Step::MadeTransient { name: n } if *n == name)) {
-                return None;
-            }
             let mut twin = d.clone();
             twin.steps[k] = Step::Removed { name: name.clone() };
             twin.fields.retain(|f| f.name != name);
-            Some((d, twin))
+            (d, twin)
         })
         .prop_flat_map(move |(d, twin)| {
             let tw = Ty::Adt(vmodel::declgen::struct_decl("DynSwT", &twin));
             (Just(d), Just(tw.clone()), vmodel::gen::val_strategy(&tw, cfg))
         })
-        .prop_filter_map("encodable", |(d, tw, val)| {
-            let bytes = ref_encode(&tw, &val).ok()?.bytes;
+        .prop_map(|(d, tw, val)| {
+            // (a value the reference encoder refuses leaves the reader with an empty input)
+            let bytes = ref_encode(&tw, &val).map(|f| f.bytes).unwrap_or_default();
             let h = vmodel::fnv64(format!("{d:?}").as_bytes()) as u32;
-            Some(FaultCase::Raw { ty: Ty::Adt(vmodel::declgen::struct_decl(&format!("DynSw{h:08x}"), &d)), bytes })
+            FaultCase::Raw { ty: Ty::Adt(vmodel::declgen::struct_decl(&format!("DynSw{h:08x}"), &d)), bytes }
         })
         .boxed()
 }
